@@ -131,6 +131,7 @@ struct Step {
   int kind = 0;
   int s0 = -1, s1 = -1;  // source indices
   bool catch_it = true;
+  int flavor = 0;  // iterator form: 0 Await(begin, n), 1 AwaitSticky(begin, n), 2 AwaitOn(e, begin, end)
 };
 
 struct Obs {
@@ -284,16 +285,43 @@ int Expected(const Src& s) {
           CheckTouch(w, *b);                                                                                           \
           break;                                                                                                       \
         case aAwaitIter: {                                                                                             \
+          yaclib::IExecutor* mine = &co_await yaclib::CurrentExecutor();                                               \
+          int tag_before = CurTag();                                                                                   \
           if (a->shared) {                                                                                             \
             std::vector<yaclib::SharedFuture<Tracked, MyError>> v{a->sf, b->sf};                                       \
-            co_await yaclib::Await(v.begin(), v.size());                                                               \
+            if (st.flavor == 1) {                                                                                      \
+              co_await yaclib::AwaitSticky(v.begin(), v.size());                                                       \
+            } else if (st.flavor == 2) {                                                                               \
+              co_await yaclib::AwaitOn(*w.other, v.begin(), v.end());                                                  \
+            } else {                                                                                                   \
+              co_await yaclib::Await(v.begin(), v.size());                                                             \
+            }                                                                                                          \
           } else {                                                                                                     \
             std::vector<yaclib::Future<Tracked, MyError>> v;                                                           \
             v.push_back(std::move(a->uf));                                                                             \
             v.push_back(std::move(b->uf));                                                                             \
-            co_await yaclib::Await(v.begin(), v.end());                                                                \
+            if (st.flavor == 1) {                                                                                      \
+              co_await yaclib::AwaitSticky(v.begin(), v.end());                                                        \
+            } else if (st.flavor == 2) {                                                                               \
+              co_await yaclib::AwaitOn(*w.other, v.begin(), v.size());                                                 \
+            } else {                                                                                                   \
+              co_await yaclib::Await(v.begin(), v.end());                                                              \
+            }                                                                                                          \
             a->uf = std::move(v[0]);                                                                                   \
             b->uf = std::move(v[1]);                                                                                   \
+          }                                                                                                            \
+          if (st.flavor == 1) {                                                                                        \
+            if (TagOf(w, mine) > 0 && CurTag() != TagOf(w, mine) && CurTag() != tag_before) {                          \
+              BadTag(w, st.kind);                                                                                      \
+            }                                                                                                          \
+            if (&co_await yaclib::CurrentExecutor() != mine) {                                                         \
+              BadTag(w, st.kind);                                                                                      \
+            }                                                                                                          \
+          } else if (st.flavor == 2) {                                                                                 \
+            cur_tag = 2;                                                                                               \
+            if (CurTag() != 2) {                                                                                       \
+              BadTag(w, st.kind);                                                                                      \
+            }                                                                                                          \
           }                                                                                                            \
           CheckTouch(w, *a);                                                                                           \
           CheckTouch(w, *b);                                                                                           \
@@ -473,7 +501,10 @@ void CoroCase(Ctx& ctx, int coro_kind, bool stopped_target) {
         expect_fail_kind[static_cast<std::size_t>(c)] = st.s0;
         dead = true;  // the coroutine ends here
       }
-      bool to_other = st.kind == aAwaitOn1 || st.kind == aAwaitOn2 || st.kind == aOn;
+      if (st.kind == aAwaitIter) {
+        st.flavor = static_cast<int>(ctx.rng.Below(3));
+      }
+      bool to_other = st.kind == aAwaitOn1 || st.kind == aAwaitOn2 || st.kind == aOn || (st.kind == aAwaitIter && st.flavor == 2);
       plans[static_cast<std::size_t>(c)].push_back(st);
       ctx.Note("%s%s ", kStepName[st.kind], st.catch_it ? "" : "!");
       if (stopped_target && to_other) {
@@ -656,8 +687,14 @@ void AwaitTaskCase(Ctx& ctx) {
   std::atomic<int> extra_ran{0};
   std::atomic<int> bad{0};
   std::atomic<int> head_tag{-1};
+  TagExec e1{1, *pool};
+  std::atomic<int> inner_exec_bad{0};
   auto inner = [&](int c) -> yaclib::Task<Tracked, MyError> {
     started.fetch_add(1, kRlx);
+    // a Task coroutine started by co_await runs as a continuation of the awaiting coroutine: it inherits its executor
+    if (&co_await yaclib::CurrentExecutor() != static_cast<yaclib::IExecutor*>(&e1)) {
+      inner_exec_bad.fetch_add(1, kRlx);
+    }
     if (head_fails) {
       co_return MyError{c};
     }
@@ -702,7 +739,7 @@ void AwaitTaskCase(Ctx& ctx) {
   };
   int want_value = extra ? code + 1 : code;
   auto outer = [&]() -> yaclib::Future<Tracked, MyError> {
-    co_await yaclib::On(*pool);
+    co_await yaclib::On(e1);
     auto t0 = make();
     if (head != 4 && started.load(kRlx) != 0) {
       bad.fetch_add(1, kRlx);  // ran before being awaited
@@ -745,6 +782,9 @@ void AwaitTaskCase(Ctx& ctx) {
   {
     auto f = outer();
     auto r = std::move(f).Get();
+    ctx.Check(inner_exec_bad.load(kRlx) == 0, "task-inherits-executor", "C13,C12",
+              "a Task coroutine started by %s did not run with the awaiting coroutine's executor as CurrentExecutor()",
+              form == 0 ? "co_await std::move(task)" : "co_await Await(task)");
     if (!head_fails) {
       ctx.Check(r.State() == yaclib::ResultState::Value && std::as_const(r).Value().v == want_value, "coroutine-result",
                 "C13,C12", "awaiting a lazy Task (head %s) produced state %d, expected value %d", kHead[head],
